@@ -6,7 +6,7 @@ end-node names and the requested demand from an independent pattern clock.
 from vlib.gen import net as gnet
 from vlib.ref import hyd as ref
 from vlib import simobs
-from vlib.props import common
+from vlib.props import common, suite
 
 ID = 'C01'
 LEVEL = 'exploration'
@@ -32,6 +32,10 @@ TOL = 1e-6 + 1e-9
 
 
 def n_cases(tier):
+    return base_cases(tier) + len(suite.files(tier))     # + the repository's own tests under the monitor (vlib/props/suite.py)
+
+
+def base_cases(tier):
     return 160 if tier == 'quick' else 2400
 
 
@@ -55,6 +59,8 @@ def make_wn(c, rng):
 
 
 def run_case(c, rng):
+    if suite.maybe_run(c, ID, base_cases(c.tier)):
+        return
     wn, sample, sig = make_wn(c, rng)
     c.sample = sample if 'spec' not in sample else {'spec_summary': gnet.signature(sample['spec'])}
     c.set_sig(*sig)
